@@ -170,6 +170,22 @@ AddData(o, n, v) ==                                \* ObjectBase.add_data (objec
          /\ Ok("AddData", [s |-> s, p |-> o, n |-> n, v |-> v], {s, o})
     /\ UNCHANGED <<pg, fpg, held, mode, dirty, saved, w2, w2pg>>
 
+\* add_data with an entity_type dictionary that carries the uid of the type of an existing data set e (plus attributes that type
+\* does not define): the new data set JOINS that type (data_type.py find_or_create: the "find" leg); the shared type itself -
+\* and with it every other data set that uses it - stays exactly as it is
+AddDataLike(o, n, v, e) ==
+    /\ Do("AddDataLike") /\ Writable /\ o \in Att \cap OS /\ FreeSet(DS) # {}
+    /\ e \in Att \cap DS /\ e \notin dirty /\ mem[e].name \notin {"Visual Parameters", "UserComments", "file.dat"}
+    /\ LET s == Lowest(FreeSet(DS)) IN
+         /\ mem' = [mem EXCEPT ![s] = [par |-> o, name |-> n, flag |-> TRUE, val |-> v, meta |-> 0, ty |-> mem[e].ty]]
+         /\ kids' = [kids EXCEPT ![o] = @ \cup {s}]
+         /\ reg' = [reg EXCEPT ![s] = "live"]
+         /\ fnode' = [fnode EXCEPT ![s] = [on |-> TRUE, name |-> n, flag |-> TRUE, val |-> v, meta |-> 0, ty |-> mem[e].ty]]
+         /\ flink' = flink \cup {<<o, s>>}
+         /\ fopt' = [fopt EXCEPT ![s] = TRUE]
+         /\ Ok("AddDataLike", [s |-> s, p |-> o, n |-> n, v |-> v, e |-> e], {s, o})
+    /\ UNCHANGED <<pg, fpg, held, mode, dirty, saved, w2, w2pg>>
+
 \* Workspace.create_entity(..., save_on_creation=False): the entity exists in memory only; the final save of
 \* Workspace.close (root subtree, add_children=True) writes and links it (workspace.py:196,477-478)
 CreateDeferred(p, n) ==
@@ -755,6 +771,7 @@ Step ==
     \/ \E d \in DS, y \in W2E : Copy2Data(d, y)
     \/ \E c \in GS \cup OS, x \in ES \cup PS : RemoveNotAChild(c, x)
     \/ \E x \in GS, q \in GS : CopyIntoSelf(x, q)
+    \/ \E o \in OS, n \in Names, v \in Vals, e \in DS : AddDataLike(o, n, v, e)
 
 CmodeUpdate == cmode' = IF last'.act = "Open" /\ last'.args.fresh THEN last'.args.m ELSE cmode
 Next == Step /\ InordUpdate /\ CmodeUpdate
